@@ -4,6 +4,7 @@
 #define VERIF_C31_COMMON_HPP
 
 #include "../mc/mc.hpp"
+#include <unistd.h>
 
 #include <bluetoe/l2cap.hpp>
 #include <bluetoe/l2cap_channels.hpp>
@@ -210,13 +211,36 @@ inline const char* guarded( F&& f )
     return mc::Guard::asan_errors() != before ? "asan" : "";
 }
 
+// --replay runs: start again with symbolized ASan reports (the exploration runs with symbolize=0)
+inline void symbolize_on_replay( const mc::Args& a, char** argv )
+{
+    if ( a.replay.empty() || getenv( "C31_REEXEC" ) ) return;
+    const char* old = getenv( "ASAN_OPTIONS" );
+    const std::string opts = std::string( old ? old : "" ) + ( old && *old ? ":" : "" ) + "symbolize=1";
+    setenv( "ASAN_OPTIONS", opts.c_str(), 1 );
+    setenv( "C31_REEXEC", "1", 1 );
+    fflush( stdout );
+    execv( "/proc/self/exe", argv );
+    // if exec fails the replay simply goes on without symbols
+}
+
 } // namespace c31
 
 // Millions of tiny exact-size blocks are allocated and freed: keep ASan's quarantine small and do not record allocation
 // stacks (only red zones are needed here).  Keys given in ASAN_OPTIONS by the driver still take precedence.
+//
+// C31_ASAN_REPORT_EVERY_ERROR (BFS units): in recover mode ASan reports an error only once per program counter
+// (suppress_equal_pcs); mc::Bfs re-executes a failing trace twice in the same process and would not see the report
+// again.  With suppress_equal_pcs=0 every over-read / over-write is reported, so "asan" is a deterministic observation.
+// Reports are not symbolized during exploration (thousands of them may be printed); a --replay run re-executes itself
+// with symbolize=1 (c31::symbolize_on_replay), nothing but constants may be used in here (ASan is not initialised yet).
 extern "C" __attribute__(( used, visibility( "default" ) )) const char* __asan_default_options()
 {
+#ifdef C31_ASAN_REPORT_EVERY_ERROR
+    return "quarantine_size_mb=1:malloc_context_size=0:thread_local_quarantine_size_kb=64:suppress_equal_pcs=0:symbolize=0:fast_unwind_on_fatal=1:print_legend=0:color=never";
+#else
     return "quarantine_size_mb=1:malloc_context_size=0:thread_local_quarantine_size_kb=64";
+#endif
 }
 
 #endif
